@@ -26,6 +26,7 @@ type Exec struct {
 	trivialMeta map[string]*Goal
 	boundSites  map[string]bool
 	boundLoops  map[string]bool
+	localAlias  map[types.Object]string // locals renamed since the lock: object -> the name the contract uses
 	leaves      []*node
 	ghostVars   map[string]string
 	notes       map[string]bool // assumptions / abstractions used
@@ -743,10 +744,16 @@ func (x *Exec) step(s *State, in ssa.Instruction) bool {
 				// a variable whose address is known is always read through its
 				// address (a later rvalue use only names a copy of the value
 				// it had then)
-				if old, ok := fr.locals[id.Name]; ok && old.isAddr && !v.IsAddr && old.obj != nil && old.obj == v.Object() {
+				name := id.Name
+				if fr.fn == x.entry && x.localAlias != nil {
+					if a, ok := x.localAlias[v.Object()]; ok {
+						name = a
+					}
+				}
+				if old, ok := fr.locals[name]; ok && old.isAddr && !v.IsAddr && old.obj != nil && old.obj == v.Object() {
 					return adv()
 				}
-				fr.locals[id.Name] = localRef{v.X, v.IsAddr, v.Object()}
+				fr.locals[name] = localRef{v.X, v.IsAddr, v.Object()}
 			}
 		}
 		return adv()
